@@ -100,6 +100,12 @@ def gen_base(rng, tier, index):
         # join_timeout shorter than the workers' end(): joins of retiring workers time out (a legal configuration)
         case["join_timeout"] = 0.1
         case["end_delay"] = rng.choice([0.3, 0.6])
+    if factory and quota and index % 8 in (0, 4):
+        case["worker_opts"] = {"end_raises": True}         # the workers' clean-up hook fails: they are replaced all the same
+    if index % 8 == 3:
+        case["create_all_first"] = True                    # all result generators built first, consumed one after the other
+    if factory and quota and index % 8 == 1:
+        case["verbose"], case["broken_stderr"] = True, True   # information messages wanted, stderr is a pipe nobody reads
     return case
 
 
